@@ -1,7 +1,7 @@
 from campaigns_util import B
 
 SPEC = {
-    "pkg": "props/c20", "level": "exploration",
+    "pkg": "props/c20", "level": "exploration", "bins": ["ts-server"],
     "rule": ("rapid generators: 1-3 key columns (int/float/string/bool/time, few distinct values so that fragments share key prefixes, int64 extremes, empty/prefix/UTF-8 strings) "
              "+ 0-2 non-key columns, 2-400 rows sorted by the writer's own SortForColumnStore, fixed and variable fragment layouts incl. short/one-row last fragment, coarse-index "
              "and min-rows-for-seek settings; condition as InfluxQL text (ladder of sub-campaigns: pk_atom single atom or time range -> pk_and AND of atoms on distinct columns -> "
@@ -11,7 +11,19 @@ SPEC = {
              "tree, all deciding columns non-null) is inside the returned ranges (superset accepted). sk_bloom: real BloomFilterWriter.CreateAttachIndex + RenameIndexFiles + "
              "CreateSKFileReaders/ReInit/SKIndexReader.Scan over generated word phrases and MATCHPHRASE/=/!= trees; sk_minmax: MinMaxIndexReader over a harness-built bound record. "
              "Non-trivial: >= 3 fragments, >= 1 fragment pruned and (above the atom rung) the condition references >= 2 key columns or uses OR/!=; skip-index cases: >= 1 block skipped. "
-             "distinct = hash of the whole case. Known-finding classes (code-defined predicates in known_test.go) are excluded only while their minimal replay still fails."),
+             "distinct = hash of the whole case. Known-finding classes (code-defined predicates in known_test.go) are excluded only while their minimal replay still fails. "
+             "bb_colstore (black box): one real ts-server per process (flushes owned by the harness: write-cold-duration and force-snapShot-duration 1h), per case a fresh "
+             "column-store measurement created through the real DDL (CREATE MEASUREMENT db0.autogen.m (<cols>, z int64) WITH ENGINETYPE = columnstore [INDEXTYPE bloomfilter|text "
+             "INDEXLIST c ...] PRIMARYKEY k1[,k2[,k3]] [SORTKEY pk | pk,col | pk,time]): 1-3 key columns of type tag / string field / int / float / bool with 2-5 distinct values "
+             "each, 1-2 further columns, 25-405 rows with distinct timestamps, no nulls, written in 1-4 requests with forced flushes in between (one file per flush; the writer "
+             "puts every distinct key tuple into a fragment of its own, so a file has as many fragments as distinct key tuples); 5-10 queries per case (select * / count(z) / "
+             "one field; condition trees of depth <= 3 over key (75%) and other columns with = != <> < <= > >=, literal on either side, parentheses, optional time bounds) asked "
+             "after chosen flushes and after the last one; every answer must be exactly the rows the brute-force evaluation of the condition selects (set of (time, all columns)); "
+             "a server death or a query error is a violation too. Skip-index kinds are probed once per process on a sacrificial server (DDL accepted, forced flush survives, rows "
+             "readable); a kind that fails the probe is counted as skipindex-NOT-EXERCISED:<kind> (<reason>). Non-trivial: >= 3 fragments in a flushed file, the condition "
+             "references a key column, the answer is a non-empty strict subset. Left out by construction and counted: the known classes R2 (widened: any condition on the third "
+             "key column over an integer middle key, because the rewritten index record stays cached on a server), R4 (+ integral float literal on a float key, printed as an "
+             "integer by the planner: C12-float-integral), and the classes found by this campaign R11-R15 (see replays/C20/proposed); MATCHPHRASE/LIKE/IN are not generated."),
     "assumptions": [
         "rows reach the index builder sorted by lib/record SortHelper.SortForColumnStore with sort key = primary key (nulls padded as that helper pads them)",
         "conditions reach NewKeyCondition as column-vs-literal comparisons joined by AND/OR with the time bounds split off into GetTimeCondition, as engine/hybrid_index_reader.go initKeyCondition does",
@@ -19,6 +31,10 @@ SPEC = {
         "MATCHPHRASE is decided only for whole-word runs separated by single spaces and cross-checked with the executor's token finder",
         "the min-max reader has no production writer/ReadFunc on this tree: its index record (row k = lower bound, row k+1 = upper bound of fragment k, no nulls) is built by the harness",
         "the bloom-filter writer receives the split characters engine/index/index.go NewIndexWriters would pass: \"\" for an index created by DDL, the content splitter otherwise (both generated)",
+        "bb_colstore: HTTP 204 is the acknowledgement; the column store's forced flush is asynchronous (it only waits for the previous one), so the harness calls it three times; "
+        "unflushed column-store rows are not visible to conditioned queries on the pinned tree (probed once per server; counted as memtable-phase-NOT-EXERCISED), so rows are "
+        "judged only after their flush; a query is judged after a condition that holds for every row (z = 1) counts all rows; string comparisons are byte-wise, mixed int/float "
+        "comparisons are done in float64 (all generated magnitudes are far below 2^53)",
     ],
     "campaigns": [
         {"name": "pk_atom", "run": "^TestPKAtom$", "quick": B(12000, 2), "thorough": B(250000, 2, 3000)},
@@ -30,6 +46,7 @@ SPEC = {
         {"name": "pk_strmatch", "run": "^TestPKStrMatch$", "quick": B(8000, 1), "thorough": B(200000, 1, 3000)},
         {"name": "sk_minmax", "run": "^TestSKMinMax$", "quick": B(12000, 1), "thorough": B(300000, 1, 3000)},
         {"name": "sk_bloom", "run": "^TestSKBloom$", "quick": B(2400, 2), "thorough": B(60000, 2, 3000)},
+        {"name": "bb_colstore", "run": "^TestBBColumnStore$", "quick": B(15, 4, 600, shrinktime="20s"), "thorough": B(450, 8, 3000, shrinktime="60s")},
     ],
 }
 
@@ -39,6 +56,7 @@ META = {
     "text": ("Generated sorted key records and InfluxQL conditions are pushed through the primary-key sparse index (Build, NewKeyCondition, Scan) and the skip-index readers; "
              "every fragment that holds a row definitely satisfying the condition must be inside the returned fragment ranges (a superset is accepted). "
              "Both search strategies (binary / generic exclusion) are counted. Exploration: finds counterexamples, never proves absence."),
-    "note": ("Library level only: the black-box twin-measurement differential (rows with nulls, real skip-index files) is a separate part. Known-finding classes are excluded "
-             "from the generators only while their minimal replay still fails on the tree under test."),
+    "note": ("Library level plus the black-box campaign bb_colstore (real server, real DDL, real files; rows without nulls, so null keys stay with the library check). "
+             "Known-finding classes are excluded from the library generators only while their minimal replay still fails on the tree under test; the black-box campaign "
+             "excludes its classes by construction."),
 }
